@@ -117,6 +117,32 @@ CLAIMED.update({
         note=OBS_NOTE),
 })
 
+CLAIMED.update({
+    "C18": dict(
+        text="spec/MC_sources.tla models the paginated listing as a page-by-page state machine; TLC checks result = every key under the "
+             "prefix with the suffix for every bucket up to 4/5 keys x page size x prefix mode, and liveness; get_mos_files is run "
+             "against an in-memory paginator for each and judged by TLC (Trace_Sources). Loading the same content from file/str/"
+             "bytes/S3 object/MosReader must give one class and one serialisation; every bounded collection is built through the three "
+             "constructors and compared with the hand fold; readers report id/roID/class of fresh equal objects.",
+        design="6/C18", technique="TLA+ listing state machine checked by TLC; replay against fake S3; differential source comparison; TLC trace judge",
+        note="Trusted: TLC; ElementTree; ListingFake / FakeS3 (shaped like boto3 responses). Real S3 unreachable offline. The source-"
+             "equivalence half is a differential check with little TLA+ content."),
+    "C19": dict(
+        text="spec/MC_cli.tla: the detect/inspect loop as a state machine (every listed file processed in order - liveness) over every "
+             "file list up to 2/3 of 8 file kinds plus one list per class; MergeRc from MosCollection!Accepts/Expected for every "
+             "collection x --incomplete x --non-strict x -o. mosromgr.cli.main(argv) is called in-process on real files; TLC "
+             "(Trace_Cli) judges markers, order, exit status, and that the bytes written equal the library's merged serialisation.",
+        design="6/C19", technique="TLA+ state machine checked by TLC (safety + liveness); replay through cli.main; TLC trace judge",
+        note="Trusted: TLC; harness/cli.py (file rendering, line parsing). S3 options of the CLI are not exercised."),
+    "C20": dict(
+        text="spec/MosExpose.tla gives, for every abstract message, the target story/item, the source IDs in message order and the "
+             "carried elements each class must expose; every distinct message of the bounded generators (24 classes, blank/unknown/"
+             "missing targets, 1..2/3 sources, compact or pretty XML) is parsed, its documented accessors and inspect() are "
+             "exercised and TLC (Trace_Expose) judges the observations.",
+        design="6/C20", technique="TLA+ functional model; exhaustive replay of bounded messages; TLC trace judge",
+        note="Trusted: TLC; harness/expose.py accessor table; alpha/gamma. inspect() labels are not judged, only that it does not raise and mentions every id it names."),
+})
+
 PENDING_REASON = "check under construction (DESIGN.md section 11); will be claimed once its TLA+ binding is built"
 
 
